@@ -210,3 +210,15 @@ void h_parse_grammar (void)
   rc = yaep_parse_grammar (g, strict, d);
   if (gh_err_code != 0) VACUITY_CANARY_N ("front end failed"); else VACUITY_CANARY_N ("definition replayed");
 }
+
+/* ---- A.cb: the allocator's error callback installed by yaep never returns and raises YAEP_NO_MEMORY ---- */
+void err_nomem_c (int code)
+__CPROVER_requires (code == YAEP_NO_MEMORY)
+__CPROVER_assigns (gh_err_code)
+__CPROVER_ensures (0)
+;
+void errfunc_c (void *ignored)
+__CPROVER_assigns (gh_err_code)
+__CPROVER_ensures (0)                 /* does not return: control leaves through yaep_error */
+;
+void h_errfunc (void) { void *p; GH (); VACUITY_CANARY (); error_func_for_allocate (p); }
